@@ -516,7 +516,7 @@ impl TTS {
                 } else {
                     let amount = amount * TTS::get_pause_multiplier(prefs);
                     if amount > MIN_PAUSE {
-                        format!("<silence msec=='{}ms'/>", (amount * 180.0/prefs.get_rate()).round())
+                        format!("<silence msec='{}ms'/>", (amount * 180.0/prefs.get_rate()).round())
                     } else {
                         "".to_string()
                     }
@@ -526,13 +526,13 @@ impl TTS {
             },
             // pitch must be in [-10, 10], logarithmic based on octaves
             // note MathPlayer uses 'absmiddle' (requires keeping a stack) -- could be 'middle' is not well supported
-            TTSCommand::Pitch => if is_start_tag {format!("<pitch middle=\"{}\">", (24.0*(1.0+command.value.get_num()/100.0).log2()).round())} else {String::from("</prosody>")},
+            TTSCommand::Pitch => if is_start_tag {format!("<pitch middle=\"{}\">", (24.0*(1.0+command.value.get_num()/100.0).log2()).round())} else {String::from("</pitch>")},
             // rate must be in [-10, 10], but we get relative %s. 300% => 10 (see comments at top of file)
             TTSCommand::Rate =>  if is_start_tag {format!("<rate speed='{:.1}'>", 10.0*(0.01*command.value.get_num()).log(3.0))} else {String::from("</rate>")},
             TTSCommand::Volume =>if is_start_tag {format!("<volume level='{}'>", command.value.get_num())} else {String::from("</volume>")},
             TTSCommand::Audio => "".to_string(),    // SAPI5 doesn't support audio
-            TTSCommand::Gender =>if is_start_tag {format!("<voice required=\"Gender={}\">", command.value.get_string())} else {String::from("</prosody>")},
-            TTSCommand::Voice =>if is_start_tag {format!("<voice required=\"Name={}\">", command.value.get_string())} else {String::from("</prosody>")},
+            TTSCommand::Gender =>if is_start_tag {format!("<voice required=\"Gender={}\">", command.value.get_string())} else {String::from("</voice>")},
+            TTSCommand::Voice =>if is_start_tag {format!("<voice required=\"Name={}\">", command.value.get_string())} else {String::from("</voice>")},
             TTSCommand::Spell =>if is_start_tag {format!("<spell>{}", command.value.get_string())} else {String::from("</spell>")},
             TTSCommand::Pronounce =>if is_start_tag {
                     format!("<pron sym='{}'>{}", &command.value.get_pronounce().sapi5, &command.value.get_pronounce().text)
@@ -677,7 +677,7 @@ impl TTS {
             static ref CONSECUTIVE_BREAKS: Regex = Regex::new(r"(<silence msec[^>]+?> *){2,}").unwrap();   // two or more pauses
             static ref PAUSE_AMOUNT: Regex = Regex::new(r"msec=.*?(\d+)").unwrap();   // amount after 'time'
         }
-        let replacement = |amount: usize| format!("<silence msec=='{}ms'/>", amount);
+        let replacement = |amount: usize| format!("<silence msec='{}ms'/>", amount);
         return TTS::merge_pauses_xml(str, &CONSECUTIVE_BREAKS, &PAUSE_AMOUNT, replacement);
     }
 
